@@ -733,7 +733,9 @@ func c02ResultFirst(c *core.Ctx, sc *impl.Scratch, fc string, foi string) {
 	}
 	// "phantom": a generic union whose type parameter no case mentions stands between the lambdas - its variable
 	// occurs in the type arguments only (signature judged; Go cannot infer the constructor's T: build not judged)
-	wrappers := []string{"plain", "Some", "slice", "pair-with-parameter", "Some-and-plain", "phantom"}
+	// "record-swapped" / "union-swapped": a generic record / union whose fields / cases mention the type parameters in
+	// another order than its parameter list (Pr2<A, B> = {Rr: B; Ll: A}): numbering follows the type as WRITTEN
+	wrappers := []string{"plain", "Some", "slice", "pair-with-parameter", "Some-and-plain", "phantom", "record-swapped", "union-swapped"}
 	var defs []fo.FuncDef
 	k := 0
 	for n := 2; n <= 3; n++ {
@@ -759,6 +761,16 @@ func c02ResultFirst(c *core.Ctx, sc *impl.Scratch, fc string, foi string) {
 						}
 					default:
 						es = append(es, h)
+					}
+				}
+				if w == "record-swapped" || w == "union-swapped" {
+					if n == 3 {
+						continue
+					}
+					if w == "record-swapped" {
+						es = []fo.Expr{fo.RecordLit{Rec: "Pr2", Fields: []fo.FieldInit{{Name: "Ll", E: es[0]}, {Name: "Rr", E: es[1]}}}, fo.IntLit{V: 1}}
+					} else {
+						es = []fo.Expr{fo.Ctor{Case: "Ok2", Arg: es[0]}, fo.Ctor{Case: "Er2", Arg: es[1]}}
 					}
 				}
 				if w == "phantom" {
@@ -813,8 +825,11 @@ func c02ResultFirst(c *core.Ctx, sc *impl.Scratch, fc string, foi string) {
 		c.Hist("by_construct", "result-first-type-variables", 1)
 		g := gens[d.Name]
 		rep := map[string]any{"input": map[string]string{"t.fo": fo.Prelude + srcs[i]}, "definition": srcs[i], "expected": wants[i], "observed": res[i].Status + " " + g[0] + " " + trunc(res[i].Detail, 600)}
-		if res[i].Status == "go-build" && strings.Contains(srcs[i], "TagA") && strings.Contains(res[i].Detail, "cannot infer T") && g[0] == wants[i] {
-			c.AddInt("phantom_constructor_without_type_arguments (Go cannot infer T: build not judged)", 1)
+		if res[i].Status == "go-build" && strings.Contains(res[i].Detail, "cannot infer ") && g[0] == wants[i] {
+			// a constructor of a generic union whose other type parameter nothing determines (TagA (), Ok2 h): fc
+			// writes it without type arguments and Go cannot infer them - the documented "may be omitted where
+			// inference determines them" does not apply; the signature is right, the build is not judged
+			c.AddInt("constructor_without_type_arguments (Go cannot infer: build not judged)", 1)
 			c.Outcome("agree")
 			continue
 		}
